@@ -78,6 +78,10 @@ impl Pki {
         for i in 0..nkeys {
             keys.insert(format!("k{i}"), signer.create_key(PublicKeyFormat::Rsa).unwrap());
         }
+        // end-entity keys: e0 signs objects, e1 is "some other key"
+        for i in 0..2 {
+            keys.insert(format!("e{i}"), signer.create_key(PublicKeyFormat::Rsa).unwrap());
+        }
         Pki { signer, keys }
     }
     pub fn key(&self, name: &str) -> KeyId {
@@ -165,6 +169,8 @@ pub struct CertParams {
     pub serial: u64,
     /// explicit resources instead of atoms (trace driver)
     pub raw: Option<(IpResources, IpResources, AsResources)>,
+    /// explicit validity instead of nb/na (objects validated against the wall clock)
+    pub validity: Option<Validity>,
 }
 
 fn ip_res(fam: &str, r: &ResChoice) -> IpResources {
@@ -199,7 +205,7 @@ pub fn build_cert(pki: &Pki, p: &CertParams, router: &(Name, PublicKey)) -> Vec<
     let mut tbs = TbsCert::new(
         Serial::from(p.serial),
         issuer_pub.to_subject_name(),
-        Validity::new(time_of(p.nb), time_of(p.na)),
+        p.validity.unwrap_or_else(|| Validity::new(time_of(p.nb), time_of(p.na))),
         subject_name,
         subject_key,
         if p.kind == "ta" || p.kind == "ca" { KeyUsage::Ca } else { KeyUsage::Ee },
